@@ -356,7 +356,12 @@ class Problem:
 
     def sdeint(self, ts_f, dt, bm, y0=None, options_obj=None, via_adjoint=False, **kw):
         c = self.c
-        ts = list(ts_f) if c["ts_kind"] == "list" else torch.tensor(ts_f, dtype=self.dtype)
+        if c["ts_kind"] == "list":
+            # a list or (every other call) a tuple; whole-number times as Python ints (check_contract accepts both)
+            seq = [int(t) if float(t).is_integer() else float(t) for t in ts_f]
+            ts = tuple(seq) if len(seq) % 2 else seq
+        else:
+            ts = torch.tensor(ts_f, dtype=self.dtype)
         # options_obj: ONE dict object the caller keeps and passes to every call (instead of a fresh dict per call)
         opts = options_obj if options_obj is not None else (dict(c["options"]) if c["options"] else None)
         if via_adjoint:
